@@ -1219,4 +1219,14 @@ example :
     patternOfWord w = [.literal '*'] ∧ specWordChars w = [.literal '*'] ∧ noEscapedMark (wordAttrs w) = false := by
   decide
 
+/-- ★ ast/parse.rs `parse_inner`, read per form from the source (three loops, or one helper parameterised by the
+    delimiter — same table): each inner element closes on ITS OWN delimiter directly before `]`, and the delimiter
+    picks the constructor the model's `parseInner` / `innerKind` picks (`parseInner_spec`).  (Calling the helper with
+    `'.'` for the `=` form changes the table.) -/
+theorem inner_forms_agree :
+    Generated.FnmatchDecisions.innerForms =
+      [('.', '.', "CollatingSymbol"), (':', ':', "CharClass"), ('=', '=', "EquivalenceClass")] ∧
+    ∀ row ∈ Generated.FnmatchDecisions.innerForms,
+      row.1 = row.2.1 ∧ (innerKind row.1 ['x']).map atomCtorName = some row.2.2 := by decide
+
 end YashModel.Fnmatch
